@@ -110,7 +110,6 @@ theorem dec_prefix_none (t : Ty) : ∀ (v : Val) (n : Nat), wf t v = true →
         rw [e1, readN_natBits 32 _ _ h.1]
         simp only [natBits_length]
         rw [decChars_prefix_none cs h.2 (n - 32) (by omega)]
-        rfl
     | _ => simp_all [wf]
   | arr t k ih =>
     intro v n h hn
@@ -281,10 +280,13 @@ theorem dec_consumes (t : Ty) : ∀ (bs : Bits) (v : Val) (r : Bits), dec t bs =
     split at h
     · cases h
     · rename_i n r1 hn
-      simp only [Option.map_eq_some_iff, Prod.exists] at h
-      obtain ⟨cs, r', hcs, hv⟩ := h
-      simp only [Prod.mk.injEq] at hv
-      obtain ⟨rfl, rfl⟩ := hv
+      split at h
+      · cases h
+      rename_i cs r' hcs
+      split at h
+      case isFalse => cases h
+      simp only [Option.some.injEq, Prod.mk.injEq] at h
+      obtain ⟨rfl, rfl⟩ := h
       obtain ⟨h1, h2⟩ := prim _ _ _ _ hn
       obtain ⟨h3, h4⟩ := decChars_consumes _ _ _ _ hcs
       simp only [enc, List.length_append, natBits_length, encChars_length]
